@@ -580,6 +580,7 @@ fn main() {
     quiet_panics();
     let mut rng = Rng::new(args.seed);
     let mut frng = Rng::new(args.seed ^ 0xF0_46ED_0000);
+    let mut srng = Rng::new(args.seed ^ 0x51B1_1465_0000);
     let mut krng = Rng::new(0xA1A1);
     let keys = Keys::new(&mut krng);
     let timed = args.extra.iter().any(|a| a == "--timed");
@@ -637,6 +638,21 @@ fn main() {
         vec![D::Vb(0, 10), D::Vb(1, 10), D::Vb(0, 20), D::Vb(1, 20),
              D::Nc(2, CK::Ff, 2, 20, vec![0, 1, 3], vec![]), D::Pump(2),
              D::Pb(2, 21), D::Pump(2), D::Pb(2, 11), D::Pb(2, 20), D::Pump(2), D::Pb(2, 10), D::Pump(2), D::Pump(2)]);
+    // (5) the child of an uncertified sibling: the Byzantine leader Z shows (1,10) to X and Y (80 %: notarized, fast-finalized,
+    //     finalized) and (1,11) to A, who notarizes it with Z (20 %); slot 2 carries only B = (2,21), a child of (1,11):
+    //     A and Z notarize B, X and Y time out and skip. At X every stake condition of safe-to-notar holds for B (20 % notar,
+    //     100 % notar + skip) - but B's parent (1,11) has no certificate, only its sibling has: X must not cast the
+    //     notar-fallback vote (rule R3; seeded changes C01-5 / C01-9 / C01-11 certify the parent per slot instead of per block).
+    rec = directed(&keys, rec, "child-of-uncertified-sibling",
+        &[(10, 1, 0, 0), (11, 1, 0, 0), (21, 2, 1, 11)],
+        vec![D::Vb(0, 10), D::Vb(1, 10), D::Vb(2, 11), D::Pb(0, 10), D::Pb(0, 11), D::Pb(1, 10),
+             D::Nv(0, K::Notar, 1, 10, 0), D::Nv(0, K::Notar, 1, 10, 1), D::Nv(1, K::Notar, 1, 10, 0), D::Nv(1, K::Notar, 1, 10, 1),
+             D::Pump(0), D::Pump(0), D::Pump(0), D::Pump(0), D::Pump(1), D::Pump(1), D::Pump(1), D::Pump(1),
+             D::Nv(0, K::Notar, 1, 11, 2), D::Nv(0, K::Notar, 1, 11, 3),
+             D::Nc(0, CK::Final, 1, 0, vec![0, 1], vec![]), D::Pump(0), D::Pump(0),
+             D::Vb(2, 21), D::Vb(0, 21), D::To(0, 2), D::To(1, 2),
+             D::Pb(0, 21), D::Nv(0, K::Notar, 2, 21, 2), D::Nv(0, K::Notar, 2, 21, 3), D::Nv(0, K::Skip, 2, 0, 1), D::Nv(0, K::Skip, 2, 0, 0),
+             D::Pump(0), D::Pump(0), D::Pump(0), D::Pump(0), D::Pump(0), D::Pump(0)]);
     }
     let mut progress_stats: BTreeMap<String, u64> = BTreeMap::new();
     for _case in 0..cases {
@@ -692,9 +708,10 @@ fn main() {
                     for c in 0..copies {
                         // the second block of an equivocating leader may extend another older block than the first one does
                         // (siblings with different parents: what a node registers late must not decide anything, C01-6 / C01-13)
-                        let (cps, cph) = if c == 1 && rng.chance(1, 2) {
+                        // (own random stream `srng`: the schedules of the main stream stay what they were)
+                        let (cps, cph) = if c == 1 && srng.chance(1, 3) {
                             let alt: Vec<(u64, usize)> = w.blocks.iter().filter(|(_, b)| b.0 < s).map(|(h, b)| (b.0, *h)).collect();
-                            *rng.pick(&alt)
+                            *srng.pick(&alt)
                         } else { (ps, ph) };
                         let h = w.new_block(s, cps, cph);
                         if c == 0 { firsth = h; }
